@@ -360,6 +360,26 @@ func LoadNormalized(repo string, patterns []string, overlay map[string][]byte, k
 	for k, v := range overlay {
 		cur[k] = v
 	}
+	// pass 0: parameters of known functions get their reference names back
+	if rn := norm.RenameParams(p.Fset, p.Pkgs, known, cur); len(rn.Overlay) > 0 {
+		next := map[string][]byte{}
+		for k, v := range cur {
+			next[k] = v
+		}
+		for k, v := range rn.Overlay {
+			next[k] = v
+		}
+		if q, err := Load(repo, patterns, next); err == nil {
+			q.Inlined = rn.Inlined
+			q.Skipped = rn.Skipped
+			q.Normalized = next
+			p, cur = q, next
+		} else {
+			p.Notes = append(p.Notes, "parameter renaming abandoned (rewritten source does not load): "+firstLine(err.Error()))
+		}
+	} else {
+		p.Skipped = append(p.Skipped, rn.Skipped...)
+	}
 	for pass := 1; pass <= 4; pass++ {
 		res := norm.Normalize(p.Fset, p.Pkgs, known, cur)
 		if pass == 1 {
